@@ -4,4 +4,6 @@ go 1.21
 
 require github.com/elastic/go-ucfg v0.0.0
 
+require gopkg.in/yaml.v2 v2.2.8 // indirect
+
 replace github.com/elastic/go-ucfg => /repo
